@@ -222,6 +222,44 @@ def judgeTimeoutUsed (c : Config) (short long : Int) (cut : Bool) : List String 
     else []
   | none => []
 
+/-- the connect time-out in force and the name of its source -/
+def ctmoInForce (c : Config) : Option Int × String :=
+  match c.ctmo.chosen with
+  | some (src, t) => (CInt.denotes t, src.name)
+  | none => (some c.dfltCtmo, "default")
+
+/-- a host whose answer to the connect handshake takes longer than `short` and less than `long` seconds: was it
+    given up BEFORE it answered?  (0 = no limit) -/
+def judgeConnectUsed (c : Config) (short long : Int) (cut : Bool) : List String :=
+  match ctmoInForce c with
+  | (some t, name) =>
+    if t ≠ 0 && t ≤ short then (if cut then [] else [s!"connect_timeout:{name}:not-applied"])
+    else if t = 0 || t ≥ long then (if cut then [s!"connect_timeout:{name}:other-limit-applied"] else [])
+    else []
+  | (none, _) => []
+
+/-- a host that NEVER answers: it must be given up (unless the limit in force is 0), not before the limit and not
+    later than the limit plus one watchdog period (plus `slack`); times in tenths of a second -/
+def judgeConnectGiven (c : Config) (given : Bool) (waited wdog slack : Int) : List String :=
+  match ctmoInForce c with
+  | (some t, name) =>
+    if t = 0 then []
+    else if !given || waited > 10 * t + wdog + slack then [s!"connect_timeout:{name}:not-applied"]
+    else if waited < 10 * t - 10 then [s!"connect_timeout:{name}:other-limit-applied"]
+    else []
+  | (none, _) => []
+
+/-- the program that was actually run on the remote side of a copy -/
+def judgePathUsed (c : Config) (observed : Str) : List String :=
+  let inForce : Str := match c.path.chosen with
+    | some (_, t) => t
+    | none => c.dfltPath
+  if observed = inForce then []
+  else
+    match c.path.chosen with
+    | some (src, _) => [s!"path:{src.name}:not-used"]
+    | none => ["path:default:not-used"]
+
 /-- which of the two conflicting test modules must be active given the module-selection texts -/
 def miscExpected (c : Config) : Str :=
   match c.misc.chosen with
